@@ -114,6 +114,11 @@ func tryFastCompare(expression string) *fastCompare {
 		if err != nil {
 			return nil
 		}
+		// expr-lang compares an integer literal with an integer value as ints; beyond
+		// 2^53 the float64 detour is lossy, so leave such literals to expr-lang.
+		if !strings.Contains(m[3], ".") && (n >= maxExactFloatInt || n <= -maxExactFloatInt) {
+			return nil
+		}
 		return &fastCompare{field: m[1], op: m[2], numLit: n}
 	}
 	if m := fastFieldOpStr.FindStringSubmatch(expression); m != nil {
@@ -234,6 +239,10 @@ func tryFastCompound(expression string) *fastCompound {
 	return &fastCompound{op: op, parts: compares}
 }
 
+// maxExactFloatInt is 2^53: every integer of smaller or equal magnitude is exactly
+// representable as a float64, so comparing through float64 equals comparing as ints.
+const maxExactFloatInt = 1 << 53
+
 func toFloat64Fast(v any) (float64, bool) {
 	switch x := v.(type) {
 	case float64:
@@ -241,14 +250,26 @@ func toFloat64Fast(v any) (float64, bool) {
 	case float32:
 		return float64(x), true
 	case int:
+		if x > maxExactFloatInt || x < -maxExactFloatInt {
+			return 0, false
+		}
 		return float64(x), true
 	case int64:
+		if x > maxExactFloatInt || x < -maxExactFloatInt {
+			return 0, false
+		}
 		return float64(x), true
 	case int32:
 		return float64(x), true
 	case uint:
+		if x > maxExactFloatInt {
+			return 0, false
+		}
 		return float64(x), true
 	case uint64:
+		if x > maxExactFloatInt {
+			return 0, false
+		}
 		return float64(x), true
 	case uint32:
 		return float64(x), true
